@@ -108,6 +108,8 @@ void h_run(Case &c) {
       static char area[8192]; int rc = 0; void *p = NULL; int e;
       if (entry == 0) rc = hwloc_set_membind(t, set, (hwloc_membind_policy_t)pol, flags); else if (entry == 1) rc = hwloc_set_proc_membind(t, getpid(), set, (hwloc_membind_policy_t)pol, flags); else if (entry == 2) rc = hwloc_set_area_membind(t, area, sizeof area, set, (hwloc_membind_policy_t)pol, flags); else { p = hwloc_alloc_membind(t, 4096, set, (hwloc_membind_policy_t)pol, flags); rc = p ? 0 : -1; } e = errno;
       size_t nbind = 0; for (auto &r : g_calls) if (r.nr == SYS_mbind || r.nr == SYS_set_mempolicy || r.nr == SYS_migrate_pages) nbind++;
+      // by cpuset, CPUs without any local NUMA node convert to an empty nodeset, which is rejected like an empty set
+      if (!bynode && !empty && !outside && !hwloc_bitmap_isincluded(topo, set)) { hwloc_bitmap_t ns = hwloc_bitmap_alloc(); hwloc_cpuset_to_nodeset(t, set, ns); if (hwloc_bitmap_iszero(ns)) { empty = true; c.cls("membind:cpuset-without-local-memory"); } hwloc_bitmap_free(ns); }
       bool rejected = badflags || badpol || empty || outside;
       if (!rejected && entry == 3 && (flags & HWLOC_MEMBIND_MIGRATE)) {   // nothing to migrate in a fresh allocation: EINVAL, i.e. NULL with STRICT and the fallback allocation otherwise
         CHECK(c, nbind == 0, "reject_before_os", "%s: %zu binding system calls", what.c_str(), nbind); if (flags & HWLOC_MEMBIND_STRICT) CHECK(c, rc == -1 && e == EINVAL, "alloc_migrate", "%s: expected NULL/EINVAL, got %d errno %d", what.c_str(), rc, e); else CHECK(c, rc == 0, "alloc_fallback", "%s: expected the fallback allocation", what.c_str());
